@@ -37,6 +37,10 @@ WARNING_NAMES = {
 }
 
 
+# any wording that names a program or deviation of the statement counts as naming a correction
+NAMES_ANY = ["ORCA", "PSI4", "Turbomole", "CFOUR", "unnormalized contraction", "unnormalised contraction", "contraction"]
+
+
 def selftest():
     return gto.selftest(4)
 
@@ -144,9 +148,11 @@ def case_file(case):
                 if not msgs:
                     if printed_err is None or printed_err > thr:
                         viols.append(_v(f"no-warning:{vendor}", f"{tag}: corrected file loaded without a LoadWarning"))
-                elif not any("Corrected for" in m for m in msgs):
+                elif not any(n.lower() in m.lower() for m in msgs for n in NAMES_ANY):
+                    # "names the correction": one of the program names / deviations of the statement appears in a LoadWarning,
+                    # whatever the wording around it
                     viols.append(_v(f"no-warning:{vendor}", f"{tag}: no LoadWarning names a correction: {msgs}"))
-                elif any(n in m for m in msgs for n in named_ok):
+                elif any(n.lower() in m.lower() for m in msgs for n in named_ok):
                     counters["named_as_encoded"] = counters.get("named_as_encoded", 0) + 1
                 else:
                     # Another correction that yields the true wavefunction (checked above) is an applicable correction too
